@@ -127,6 +127,24 @@ class Bank(collections.namedtuple('Bank', 'provider, paths')):
     def __new__(cls):
         return super().__new__(cls, dict(), set())  # pylint: disable=use-dict-literal
 
+    def verify(self, provider: type['Service'], alias: typing.Optional[Alias]) -> set[Reference]:
+        """Check the provider references for collisions with the already registered ones.
+
+        Args:
+            provider: implementation class
+            alias: provider alias
+
+        Returns:
+            Set of the provider references.
+        """
+        references = {Reference(provider)}
+        if alias:
+            references.add(alias)
+        for ref in references:
+            if ref in self.provider and provider != self.provider[ref]:
+                raise forml.UnexpectedError(f'Provider reference collision ({ref})')
+        return references
+
     def add(self, provider: type['Service'], alias: typing.Optional[Alias], paths: set[Path]):
         """Push package to lazy loading stack.
 
@@ -135,14 +153,7 @@ class Bank(collections.namedtuple('Bank', 'provider, paths')):
             alias: provider alias
             paths: search paths to be explored when attempting to load
         """
-        references = {Reference(provider)}
-        if alias:
-            references.add(alias)
-        for ref in references:
-            if ref in self.provider:
-                if provider == self.provider[ref]:
-                    continue
-                raise forml.UnexpectedError(f'Provider reference collision ({ref})')
+        references = self.verify(provider, alias)
         self.paths.update(paths)
         if isabstract(provider):
             return
@@ -246,5 +257,8 @@ class Service(metaclass=Meta):
                 raise forml.UnexpectedError(f'Provider reference ({alias}) illegal on abstract class')
             alias = Alias(alias)
         path = {Bank.Path(p, explicit=True) for p in path or []}
-        for parent in (p for p in cls.__mro__ if issubclass(p, Service) and p is not Service):
+        parents = [p for p in cls.__mro__ if issubclass(p, Service) and p is not Service]
+        for parent in parents:  # a colliding provider is refused as a whole - before any of the banks gets touched
+            BANK[parent].verify(cls, alias)
+        for parent in parents:
             BANK[parent].add(cls, alias, path)
